@@ -2,13 +2,15 @@
   One schema node: `Impl.nodeValidate` against `Spec.nodeValid`, given agreeing children.
 -/
 import VM.Proofs.Comp
+import VM.Proofs.NoImp
 namespace VM
 open Impl Spec
 
 mutual
 /-- instances a configuration handles like draft 4 (closed under sub-instances):
     with the null early exit open, no `null` anywhere; with the `$schema`/`id` exemption open,
-    no member of those names -/
+    no member of those names; with the IMPORTANT!-message leak open, no member called `headers` that holds objects with
+    a string `$ref` (the one shape for which the code produces such a message) -/
 def adm (cfg : Cfg) : JVal → Bool
   | .null => !cfg.nullSkipsComposition && !cfg.enumSkipsNil
   | .arr xs => admList cfg xs
@@ -20,7 +22,9 @@ def admList (cfg : Cfg) : List JVal → Bool
 def admMembers (cfg : Cfg) : List (String × JVal) → Bool
   | [] => true
   | (k, x) :: rest =>
-    (!cfg.ignoresSchemaIdKeys || (k != "$schema" && k != "id")) && adm cfg x && admMembers cfg rest
+    (!cfg.ignoresSchemaIdKeys || (k != "$schema" && k != "id"))
+    && (!cfg.leaksImportant || k != "headers" || (headerRefErrors "" x).all Option.isNone)
+    && adm cfg x && admMembers cfg rest
 end
 
 theorem admList_mem (cfg : Cfg) (xs : List JVal) (h : admList cfg xs = true) :
@@ -43,7 +47,7 @@ theorem admMembers_mem (cfg : Cfg) (kvs : List (String × JVal)) (h : admMembers
     obtain ⟨k, x⟩ := kv
     simp only [admMembers, Bool.and_eq_true, Bool.or_eq_true, Bool.not_eq_eq_eq_not, Bool.not_true,
       bne_iff_ne, ne_eq] at h
-    obtain ⟨⟨h1, h2⟩, h3⟩ := h
+    obtain ⟨⟨⟨h1, _⟩, h2⟩, h3⟩ := h
     obtain ⟨ih1, ih2⟩ := ih h3
     constructor
     · intro kv hkv
@@ -56,6 +60,36 @@ theorem admMembers_mem (cfg : Cfg) (kvs : List (String × JVal)) (h : admMembers
         · rw [hc] at h1; cases h1
         · exact h1
       · exact ih2 hc kv hkv
+
+mutual
+/-- an admissible instance is quiet about `headers` when that switch is open -/
+theorem adm_quiet (cfg : Cfg) (hc : cfg.leaksImportant = true) (v : JVal) (h : adm cfg v = true) : NoImp.hdrQuiet v = true := by
+  match v with
+  | .null => rfl
+  | .bool _ => rfl
+  | .num _ => rfl
+  | .str _ => rfl
+  | .arr xs => simp only [adm] at h; simp only [NoImp.hdrQuiet]; exact admList_quiet cfg hc xs h
+  | .obj kvs => simp only [adm] at h; simp only [NoImp.hdrQuiet]; exact admMembers_quiet cfg hc kvs h
+theorem admList_quiet (cfg : Cfg) (hc : cfg.leaksImportant = true) (xs : List JVal) (h : admList cfg xs = true) :
+    NoImp.hdrQuietL xs = true := by
+  match xs with
+  | [] => rfl
+  | x :: xs =>
+    simp only [admList, Bool.and_eq_true] at h
+    simp only [NoImp.hdrQuietL, Bool.and_eq_true]
+    exact ⟨adm_quiet cfg hc x h.1, admList_quiet cfg hc xs h.2⟩
+theorem admMembers_quiet (cfg : Cfg) (hc : cfg.leaksImportant = true) (kvs : List (String × JVal))
+    (h : admMembers cfg kvs = true) : NoImp.hdrQuietM kvs = true := by
+  match kvs with
+  | [] => rfl
+  | (k, x) :: rest =>
+    simp only [admMembers, Bool.and_eq_true] at h
+    obtain ⟨⟨⟨_, h1⟩, h2⟩, h3⟩ := h
+    simp only [NoImp.hdrQuietM, Bool.and_eq_true]
+    refine ⟨⟨?_, adm_quiet cfg hc x h2⟩, admMembers_quiet cfg hc rest h3⟩
+    simpa [hc] using h1
+end
 
 theorem any_typeMatches_null (types : List String) :
     types.any (typeMatches · .null) = types.contains "null" := by
@@ -95,7 +129,8 @@ theorem type_verdict_null (cfg : Cfg) (O : Oracles) (b : SBase) (path : String)
 /-- vocabulary and configuration conditions of one node -/
 structure NodeWF (cfg : Cfg) (O : Oracles) (b : SBase) (defaults : Defaults) (ik : IKids)
     (sk : SKids) : Prop where
-  leak : cfg.leaksImportant = false
+  /-- what is kept of a failed branch is empty: the switch is closed, or no branch result carries an IMPORTANT! message -/
+  keep : ∀ path v, adm cfg v = true → ∀ f, (f ∈ ik.anyOf ∨ f ∈ ik.oneOf ∨ f ∈ ik.allOf) → keepRelevant cfg (f path v) = {}
   bound : cfg.addlItemsBound = false
   float : cfg.floatTolerance = true → OExact O
   fmtTypes : b.format ≠ "" → b.types ≠ []
@@ -113,7 +148,7 @@ theorem node_verdict (cfg : Cfg) (O : Oracles) (b : SBase) (defaults : Defaults)
     good (nodeValidate cfg {} O b defaults ik path v) (nodeValid O b sk v) := by
   have hnn : cfg.enumSkipsNil = true → v.isNull = false := by
     intro hc; cases v <;> simp_all [adm, JVal.isNull]
-  have hS := schemaProps_verdict cfg hw.leak b ik sk hk path v hv hw.depsNodup
+  have hS := schemaProps_verdict cfg b ik sk hk path v (hw.keep path v hv) hv hw.depsNodup
   have hC := common_verdict cfg b path v hnn
   unfold nodeValidate nodeValid
   cases v with
